@@ -241,3 +241,72 @@ func propDifferentialVolume(t *rapid.T) {
 }
 
 func TestC05_DifferentialVolume(t *testing.T) { rapid.Check(t, propDifferentialVolume) }
+
+// TestC05_ExceptionalWindows enumerates the scalars for which, at some step
+// of a windowed fixed-base walk (4- or 8-bit windows, most significant window
+// first), the accumulated point A*G and the next table entry w*G are related
+// without being equal: A = +-lambda^e * w (mod n), e in {1, 2}, i.e. the two
+// points share their y-coordinate (or its negation) but not x.  Complete
+// addition formulas do not care; an incomplete formula with a mis-guarded
+// exceptional case (same x / same y) does, and such scalars look entirely
+// random.  A must be a multiple of the window's weight times 2^w for the
+// relation to arise inside a walk, which leaves a handful of scalars; every
+// one goes through all fixed-base entry points and is compared with the
+// reference.
+func TestC05_ExceptionalWindows(t *testing.T) {
+	var cands []*big.Int
+	seen := map[string]bool{}
+	for _, w := range []uint{4, 8} {
+		for pos := uint(0); pos*w < 256 && pos < 4; pos++ {
+			weight := new(big.Int).Lsh(big.NewInt(1), pos*w)
+			above := new(big.Int).Lsh(big.NewInt(1), (pos+1)*w)
+			for d := int64(1); d < 1<<w; d++ {
+				wv := new(big.Int).Mul(big.NewInt(d), weight)
+				for e := 1; e <= 2; e++ {
+					l := ref.ExpM(ref.Lambda, big.NewInt(int64(e)), ref.N)
+					for _, sign := range []int{1, -1} {
+						a := ref.MulM(l, wv, ref.N)
+						if sign < 0 {
+							a = ref.NegM(a, ref.N)
+						}
+						if new(big.Int).Mod(a, above).Sign() != 0 {
+							continue // cannot be a partial sum of the more significant windows
+						}
+						s := new(big.Int).Add(a, wv)
+						if s.Cmp(ref.N) >= 0 || seen[s.Text(16)] {
+							continue
+						}
+						seen[s.Text(16)] = true
+						cands = append(cands, s)
+					}
+				}
+			}
+		}
+	}
+	if len(cands) == 0 {
+		t.Fatalf("HARNESS-INCONCLUSIVE: no exceptional-window scalars found")
+	}
+	g := secp256k1.NewGeneratorPoint()
+	one := secp256k1.NewScalarFromUint64(1)
+	for _, s := range cands {
+		want := ref.BaseMul(s).Uncompressed()
+		ls := lib.Sc(s)
+		got := map[string]*secp256k1.Point{
+			"ScalarBaseMult": secp256k1.NewIdentityPoint().ScalarBaseMult(ls),
+			"DoubleScalarMultBasepointVartime(s,0,G)": secp256k1.NewIdentityPoint().DoubleScalarMultBasepointVartime(ls, secp256k1.NewScalar(), g),
+			"DoubleScalarMultBasepointVartime(s,1,O)": secp256k1.NewIdentityPoint().DoubleScalarMultBasepointVartime(ls, one, secp256k1.NewIdentityPoint()),
+			"ScalarMult(s,G)":                         secp256k1.NewIdentityPoint().ScalarMult(ls, g),
+		}
+		for name, p := range got {
+			if !bytes.Equal(p.UncompressedBytes(), want) {
+				t.Fatalf("%s(%x): got %x want %x (a window's partial sum and its table entry are endomorphism images of each other)", name, s, p.UncompressedBytes(), want)
+			}
+		}
+		if k, err := secec.NewPrivateKey(ref.B32(s)); err != nil || !bytes.Equal(k.PublicKey().Bytes(), want) {
+			t.Fatalf("public key of d=%x wrong", s)
+		}
+		stat.Case("exceptional-windows", nil, true, s.Bytes(), func() any { return map[string]any{"s": s.Text(16)} })
+	}
+	stat.Exhaustive("exceptional-windows")
+	stat.Note("exceptional-windows", fmt.Sprintf("%d scalars", len(cands)))
+}
